@@ -64,6 +64,31 @@ func C09Worlds(c *Ctx, sz sizes) ([]*World, error) {
 		w := spec.World(fmt.Sprintf("layout#%d", i))
 		ws = append(ws, w)
 	}
+	// systematic layout coverage (a seeded subset at the quick tier)
+	cov := CoverageSpecs()
+	rng.Shuffle(len(cov), func(i, j int) { cov[i], cov[j] = cov[j], cov[i] })
+	// the combinations in which the working directory and an existing package both matter
+	// come first, so that the quick tier always has them
+	sort.SliceStable(cov, func(i, j int) bool {
+		pri := func(s *LSpec) int {
+			p := 0
+			if strings.HasPrefix(s.Convs[0].OutFile, "@cwd/") {
+				p += 2
+			}
+			if len(s.UserPkgs) > 0 {
+				p++
+			}
+			return -p
+		}
+		return pri(cov[i]) < pri(cov[j])
+	})
+	nCov := 24
+	if c.Tier == "thorough" {
+		nCov = len(cov)
+	}
+	for i := 0; i < nCov && i < len(cov); i++ {
+		ws = append(ws, cov[i].World(fmt.Sprintf("coverage#%d", i)))
+	}
 	for i := 0; i < sz.combos && len(corpus) > 2; i++ {
 		r := c.Rng("c09-combo", i)
 		k := 2 + r.IntN(2)
